@@ -26,7 +26,7 @@
 EXTENDS Naturals, Sequences, Bitwise, TLC
 
 CONSTANT Deviations
-DeviationNames == {"NoSubWord256", "CbcChainPlain", "PadZeroWhenAligned"}
+DeviationNames == {"NoSubWord256", "CbcChainPlain", "PadZeroWhenAligned", "SharedWrapperKey"}
 ASSUME Deviations \subseteq DeviationNames
 
 a \oplus b == a ^^ b            \* ^^ is not associative in the grammar; \oplus is left-associative
